@@ -126,6 +126,8 @@ pub enum Op {
     RawRelease(ObjId),
     /// arm the value of the object: its next `Clone::clone` (inside make_mut) panics
     CloneBomb(ObjId),
+    /// arm the value of the object: its next `Clone::clone` drops the program's other handles to it
+    CloneEvict(ObjId),
     /// inside a destructor: move own stored handle k out to a program slot (it escapes the teardown)
     EscapeOwn(usize),
     /// clone a program-held handle whose target is already destroyed, then print AFTER-CLONE (C16)
@@ -212,6 +214,7 @@ impl fmt::Display for Op {
             Op::Shallow(o) => write!(f, "shallow:{}", o),
             Op::RawRelease(o) => write!(f, "rawrelease:{}", o),
             Op::CloneBomb(o) => write!(f, "clonebomb:{}", o),
+            Op::CloneEvict(o) => write!(f, "cloneevict:{}", o),
             Op::EscapeOwn(k) => write!(f, "escapeown:{}", k),
             Op::CloneLate(s) => write!(f, "clonelate:{}", fmt_slot(*s)),
             Op::Nop => write!(f, "nop"),
@@ -287,6 +290,7 @@ pub fn parse_op(s: &str) -> Option<Op> {
         "shallow" => Op::Shallow(o(1)?),
         "rawrelease" => Op::RawRelease(o(1)?),
         "clonebomb" => Op::CloneBomb(o(1)?),
+        "cloneevict" => Op::CloneEvict(o(1)?),
         "escapeown" => Op::EscapeOwn(u(1)?),
         "clonelate" => Op::CloneLate(u(1)?),
         "nop" => Op::Nop,
